@@ -1,12 +1,1084 @@
-//! stub: property C15 has no correspondence harness yet
+//! C15 — multipart parsing is exact, segmentation-independent, terminating, buffer-bounded.
+//!
+//! Case line (space separated words; everything after `|` is the chunk script):
+//!   `b=<hex boundary> ct=mixed|form lim=<n|0> plan=<r|dK>[,<r|dK>…] [gt=<h:c;h:c…|->] [tr=1] | c<hex> p e …`
+//!   * `lim=0`  → `Multipart::new(&headers, stream)` (default 64 KiB parser buffer);
+//!     `lim=n` → `Multipart::from_request` with `MultipartConfig::buffer_limit(n)` in app data
+//!   * `plan`   → what the consumer does with the i-th field: `r` read to the end, `dK` drop the
+//!     `Field` after K chunks (the parser then has to skip the rest itself); last entry repeats
+//!   * script   → `c<hex>` the body stream yields this chunk (`c-` = empty chunk), `p` it returns
+//!     `Pending` once (and wakes, as a socket would), `e` it yields an error; end of list = end of stream
+//!   * `gt`     → generator ground truth: the field list (raw header block without the blank line :
+//!     content) the body was built from; `tr=1`: the body was truncated / damaged, an error is required
+//!
+//! Output (compared with the Lean model): one token per consumer-visible event, each suffixed with
+//! `@k` = number of script items the parser had pulled from the stream at that moment:
+//!   `F<name-hex>;<hdr>=<val>,…@k`  field delivered      `D<hex>@k` content (consecutive chunks merged, k of the last)      `N@k` field finished
+//!   `X@k` field dropped early      `EOF@k` | `ERR:<kind>@k` | `HANG@k` | `SPIN@k` final state.
+use std::{
+    cell::{Cell, RefCell},
+    collections::VecDeque,
+    future::Future,
+    pin::Pin,
+    rc::Rc,
+    sync::{
+        atomic::{AtomicBool, Ordering},
+        Arc,
+    },
+    task::{Context, Poll, Wake, Waker},
+};
+
+use actix_multipart::{Multipart, MultipartConfig, MultipartError};
+use actix_web::{
+    dev,
+    error::{ParseError, PayloadError},
+    http::header::{self, HeaderMap, HeaderValue},
+    test::TestRequest,
+    web::Bytes,
+    FromRequest,
+};
+use futures_core::Stream;
+use futures_util::StreamExt as _;
+
 use super::Prop;
-use crate::common::CaseResult;
+use crate::common::{hex, kv, unhex, CaseResult, Ctx, Rng, Tier};
+
+const RULE: &str = "cases = (boundary, multipart/mixed|form-data, parser buffer limit, consumer plan, ground-truth field list, \
+chunk script): bodies are built from a field list (0..5 fields; empty/binary contents; contents ending in CR, CRLF, '--', \
+containing CRLF-- look-alikes and boundary prefixes; with/without per-field Content-Length, also lying; header-less parts; \
+preamble/epilogue), then cut at every position (exhaustive for short bodies, pairs of cuts around every CR/'-' otherwise) \
+with 0..3 Pendings between chunks and runs of empty chunks, truncated at every position, damaged (wrong boundary, missing \
+final delimiter, bad headers), and run with small buffer limits; a case is non-trivial if at least one field was delivered; \
+distinct = distinct (case, output) hashes";
+
+// ------------------------------------------------------------------------------------------
+// scripted body stream + wake-driven executor
+
+#[derive(Clone, Debug, PartialEq)]
+enum Tok {
+    Chunk(Vec<u8>),
+    Pending,
+    Err,
+}
+
+struct Script {
+    toks: VecDeque<Tok>,
+    pulled: Rc<Cell<usize>>,
+}
+
+impl Stream for Script {
+    type Item = Result<Bytes, PayloadError>;
+    fn poll_next(mut self: Pin<&mut Self>, cx: &mut Context<'_>) -> Poll<Option<Self::Item>> {
+        match self.toks.pop_front() {
+            None => Poll::Ready(None),
+            Some(t) => {
+                self.pulled.set(self.pulled.get() + 1);
+                match t {
+                    Tok::Chunk(b) => Poll::Ready(Some(Ok(Bytes::from(b)))),
+                    Tok::Pending => {
+                        // data "arrives later": the task is woken as a socket would do
+                        cx.waker().wake_by_ref();
+                        Poll::Pending
+                    }
+                    Tok::Err => Poll::Ready(Some(Err(PayloadError::EncodingCorrupted))),
+                }
+            }
+        }
+    }
+}
+
+struct Flag(AtomicBool);
+impl Wake for Flag {
+    fn wake(self: Arc<Self>) {
+        self.0.store(true, Ordering::SeqCst)
+    }
+    fn wake_by_ref(self: &Arc<Self>) {
+        self.0.store(true, Ordering::SeqCst)
+    }
+}
+
+#[derive(Clone, Debug, PartialEq)]
+enum Ev {
+    Field { name: Option<String>, hdrs: Vec<(String, Vec<u8>)> },
+    Data(Vec<u8>),
+    FieldEnd,
+    Dropped,
+    Eof,
+    Err(String),
+    Hang,
+    Spin,
+}
+
+fn err_kind(e: &MultipartError) -> String {
+    match e {
+        MultipartError::ContentTypeMissing => "ContentTypeMissing".into(),
+        MultipartError::ContentTypeParse => "ContentTypeParse".into(),
+        MultipartError::ContentTypeIncompatible => "ContentTypeIncompatible".into(),
+        MultipartError::BoundaryMissing => "BoundaryMissing".into(),
+        MultipartError::ContentDispositionMissing => "CdMissing".into(),
+        MultipartError::ContentDispositionNameMissing => "CdNameMissing".into(),
+        MultipartError::Nested => "Nested".into(),
+        MultipartError::Incomplete => "Incomplete".into(),
+        MultipartError::Parse(ParseError::Header) => "ParseHeader".into(),
+        MultipartError::Parse(ParseError::TooLarge) => "ParseTooLarge".into(),
+        MultipartError::Parse(_) => "ParseOther".into(),
+        MultipartError::Payload(PayloadError::Overflow) => "Overflow".into(),
+        MultipartError::Payload(PayloadError::Incomplete(_)) => "PayloadIncomplete".into(),
+        MultipartError::Payload(PayloadError::EncodingCorrupted) => "Stream".into(),
+        MultipartError::Payload(_) => "PayloadOther".into(),
+        MultipartError::NotConsumed => "NotConsumed".into(),
+        _ => "Other".into(),
+    }
+}
+
+#[derive(Clone, Copy, Debug, PartialEq)]
+enum Plan {
+    Read,
+    DropAfter(usize),
+}
+
+fn canon_headers(h: &HeaderMap) -> Vec<(String, Vec<u8>)> {
+    // hash-map order is not observable: stable sort by name, values of one name in insertion order
+    let mut names: Vec<String> = h.keys().map(|k| k.as_str().to_owned()).collect();
+    names.sort();
+    names.dedup();
+    let mut out = Vec::new();
+    for n in names {
+        for v in h.get_all(n.as_str()) {
+            out.push((n.clone(), v.as_bytes().to_vec()));
+        }
+    }
+    out
+}
+
+struct Setup {
+    boundary: Vec<u8>,
+    form: bool,
+    lim: usize,
+    plan: Vec<Plan>,
+}
+
+/// Run the real parser over one script; returns the event trace with the pulled-count of each event.
+fn drive(s: &Setup, script: &[Tok]) -> Vec<(Ev, usize)> {
+    let pulled = Rc::new(Cell::new(0usize));
+    let stream = Script { toks: script.iter().cloned().collect(), pulled: pulled.clone() };
+    let ct = format!(
+        "multipart/{}; boundary=\"{}\"",
+        if s.form { "form-data" } else { "mixed" },
+        String::from_utf8_lossy(&s.boundary)
+    );
+    let mut mp = if s.lim == 0 {
+        let mut headers = HeaderMap::new();
+        headers.insert(header::CONTENT_TYPE, HeaderValue::from_str(&ct).unwrap());
+        Multipart::new(&headers, stream)
+    } else {
+        let req = TestRequest::default()
+            .insert_header((header::CONTENT_TYPE, ct))
+            .app_data(MultipartConfig::new().buffer_limit(s.lim))
+            .to_http_request();
+        let boxed: Pin<Box<dyn Stream<Item = Result<Bytes, PayloadError>>>> = Box::pin(stream);
+        let mut pl: dev::Payload = dev::Payload::Stream { payload: boxed };
+        match Multipart::from_request(&req, &mut pl).into_inner() {
+            Ok(m) => m,
+            Err(_) => return vec![(Ev::Err("Extract".into()), 0)],
+        }
+    };
+    let events: Rc<RefCell<Vec<(Ev, usize)>>> = Rc::new(RefCell::new(Vec::new()));
+    let ev = events.clone();
+    let pl = pulled.clone();
+    let plan = s.plan.clone();
+    let fut = async move {
+        let push = |e: Ev| ev.borrow_mut().push((e, pl.get()));
+        let mut idx = 0usize;
+        loop {
+            match mp.next().await {
+                None => {
+                    push(Ev::Eof);
+                    return;
+                }
+                Some(Err(e)) => {
+                    push(Ev::Err(err_kind(&e)));
+                    return;
+                }
+                Some(Ok(mut field)) => {
+                    push(Ev::Field { name: field.name().map(|n| n.to_owned()), hdrs: canon_headers(field.headers()) });
+                    let p = if plan.is_empty() { Plan::Read } else { plan[idx.min(plan.len() - 1)] };
+                    idx += 1;
+                    let mut left = match p {
+                        Plan::Read => usize::MAX,
+                        Plan::DropAfter(k) => k,
+                    };
+                    loop {
+                        if left == 0 {
+                            push(Ev::Dropped);
+                            break;
+                        }
+                        match field.next().await {
+                            None => {
+                                push(Ev::FieldEnd);
+                                break;
+                            }
+                            Some(Ok(c)) => {
+                                push(Ev::Data(c.to_vec()));
+                                left -= 1;
+                            }
+                            Some(Err(e)) => {
+                                push(Ev::Err(err_kind(&e)));
+                                return;
+                            }
+                        }
+                    }
+                    drop(field);
+                }
+            }
+        }
+    };
+    let mut fut: Pin<Box<dyn Future<Output = ()>>> = Box::pin(fut);
+    let flag = Arc::new(Flag(AtomicBool::new(false)));
+    let waker = Waker::from(flag.clone());
+    let mut cx = Context::from_waker(&waker);
+    let cap = 64 + 8 * script.len() + 4 * script.iter().map(|t| if let Tok::Chunk(b) = t { b.len() } else { 0 }).sum::<usize>();
+    let mut polls = 0usize;
+    loop {
+        flag.0.store(false, Ordering::SeqCst);
+        match fut.as_mut().poll(&mut cx) {
+            Poll::Ready(()) => break,
+            Poll::Pending => {
+                if !flag.0.load(Ordering::SeqCst) {
+                    // nobody will ever poll this task again
+                    events.borrow_mut().push((Ev::Hang, pulled.get()));
+                    break;
+                }
+                polls += 1;
+                if polls > cap {
+                    events.borrow_mut().push((Ev::Spin, pulled.get()));
+                    break;
+                }
+            }
+        }
+    }
+    drop(fut);
+    let r = events.borrow().clone();
+    r
+}
+
+/// consecutive content chunks of a field are one observable (how the content is cut into chunks is
+/// not part of the property): they are merged, keeping the pulled-count of the last one
+fn merge_data(tr: &[(Ev, usize)]) -> Vec<(Ev, usize)> {
+    let mut out: Vec<(Ev, usize)> = Vec::new();
+    for (e, k) in tr {
+        if let (Ev::Data(d), Some((Ev::Data(prev), pk))) = (e, out.last_mut()) {
+            prev.extend_from_slice(d);
+            *pk = *k;
+            continue;
+        }
+        out.push((e.clone(), *k));
+    }
+    out
+}
+
+fn show_trace(tr: &[(Ev, usize)]) -> String {
+    let mut out = Vec::new();
+    let tr = merge_data(tr);
+    for (e, k) in &tr {
+        let s = match e {
+            Ev::Field { name, hdrs } => {
+                let hs: Vec<String> = hdrs.iter().map(|(n, v)| format!("{}={}", n, hex(v))).collect();
+                format!("F{};{}", name.as_ref().map(|n| hex(n.as_bytes())).unwrap_or_else(|| "~".into()), hs.join(","))
+            }
+            Ev::Data(d) => format!("D{}", hex(d)),
+            Ev::FieldEnd => "N".into(),
+            Ev::Dropped => "X".into(),
+            Ev::Eof => "EOF".into(),
+            Ev::Err(k) => format!("ERR:{}", k),
+            Ev::Hang => "HANG".into(),
+            Ev::Spin => "SPIN".into(),
+        };
+        out.push(format!("{}@{}", s, k));
+    }
+    out.join(" ")
+}
+
+/// What the property talks about: fields (headers, name, whole content, was it read to its end) + final status.
+#[derive(Clone, Debug, PartialEq)]
+struct FieldOut {
+    name: Option<String>,
+    hdrs: Vec<(String, Vec<u8>)>,
+    content: Vec<u8>,
+    /// N = stream of the field ended; X = dropped by the consumer; ! = cut short by the final status
+    end: char,
+}
+
+fn summarize(tr: &[(Ev, usize)]) -> (Vec<FieldOut>, String) {
+    let mut fs: Vec<FieldOut> = Vec::new();
+    let mut status = String::from("?");
+    for (e, _) in tr {
+        match e {
+            Ev::Field { name, hdrs } => fs.push(FieldOut { name: name.clone(), hdrs: hdrs.clone(), content: vec![], end: '!' }),
+            Ev::Data(d) => fs.last_mut().unwrap().content.extend_from_slice(d),
+            Ev::FieldEnd => fs.last_mut().unwrap().end = 'N',
+            Ev::Dropped => fs.last_mut().unwrap().end = 'X',
+            Ev::Eof => status = "EOF".into(),
+            Ev::Err(k) => status = format!("ERR:{}", k),
+            Ev::Hang => status = "HANG".into(),
+            Ev::Spin => status = "SPIN".into(),
+        }
+    }
+    (fs, status)
+}
+
+/// equality of what two runs delivered; a field the consumer dropped after K chunks has received a
+/// segmentation-dependent prefix of its content, so only prefix-compatibility is required there,
+/// and likewise for the field that was being read when the final error arrived
+fn fields_equiv(a: &[FieldOut], b: &[FieldOut]) -> bool {
+    a.len() == b.len()
+        && a.iter().zip(b).all(|(x, y)| {
+            x.name == y.name
+                && x.hdrs == y.hdrs
+                && (x.end == y.end || x.end == 'X' || y.end == 'X')
+                && if x.end == 'N' && y.end == 'N' { x.content == y.content } else { x.content.starts_with(&y.content) || y.content.starts_with(&x.content) }
+        })
+}
+
+fn show_fields(fs: &[FieldOut]) -> String {
+    fs.iter()
+        .map(|f| format!("[{} {} {}{}]", f.name.clone().unwrap_or_else(|| "~".into()), f.hdrs.len(), hex(&f.content), f.end))
+        .collect::<Vec<_>>()
+        .join("")
+}
+
+// ------------------------------------------------------------------------------------------
+// case syntax
+
+struct Case {
+    setup: Setup,
+    gt: Option<Vec<(Vec<u8>, Vec<u8>, Option<Vec<u8>>)>>,
+    trunc: bool,
+    /// `nv=1`: the body contains a part that must be rejected after the listed fields
+    no_status_verdict: bool,
+    script: Vec<Tok>,
+}
+
+fn parse_case(line: &str) -> Option<Case> {
+    let (head, tail) = match line.find('|') {
+        Some(i) => (&line[..i], &line[i + 1..]),
+        None => (line, ""),
+    };
+    let boundary = unhex(kv(head, "b")?)?;
+    let form = kv(head, "ct").unwrap_or("mixed") == "form";
+    let lim = kv(head, "lim").and_then(|s| s.parse().ok()).unwrap_or(0);
+    let mut plan = Vec::new();
+    for p in kv(head, "plan").unwrap_or("r").split(',') {
+        if p == "r" {
+            plan.push(Plan::Read)
+        } else if let Some(k) = p.strip_prefix('d') {
+            plan.push(Plan::DropAfter(k.parse().ok()?))
+        } else {
+            return None;
+        }
+    }
+    let gt = match kv(head, "gt") {
+        None => None,
+        Some("-") => Some(vec![]),
+        Some(s) => {
+            let mut v = Vec::new();
+            for f in s.split(';') {
+                let mut it = f.split(':');
+                let h = unhex(it.next()?)?;
+                let c = unhex(it.next()?)?;
+                let n = match it.next() {
+                    None | Some("~") => None,
+                    Some(x) => Some(unhex(x)?),
+                };
+                v.push((h, c, n));
+            }
+            Some(v)
+        }
+    };
+    let trunc = kv(head, "tr") == Some("1");
+    let mut script = Vec::new();
+    for t in tail.split_ascii_whitespace() {
+        if t == "p" {
+            script.push(Tok::Pending)
+        } else if t == "e" {
+            script.push(Tok::Err)
+        } else if let Some(h) = t.strip_prefix('c') {
+            script.push(Tok::Chunk(unhex(h)?))
+        } else {
+            return None;
+        }
+    }
+    let no_status_verdict = kv(head, "nv") == Some("1");
+    Some(Case { setup: Setup { boundary, form, lim, plan }, gt, trunc, no_status_verdict, script })
+}
+
+fn body_of(script: &[Tok]) -> Vec<u8> {
+    let mut b = Vec::new();
+    for t in script {
+        match t {
+            Tok::Chunk(c) => b.extend_from_slice(c),
+            Tok::Err => break,
+            Tok::Pending => {}
+        }
+    }
+    b
+}
+
+// ------------------------------------------------------------------------------------------
+// oracle helpers (independent of the model)
+
+/// reference header-block reader for the generator's own blocks (`Name: value\r\n`…): lower-cased
+/// names, trimmed values, sorted like `canon_headers`
+fn gt_headers(block: &[u8]) -> Vec<(String, Vec<u8>)> {
+    let mut v: Vec<(String, Vec<u8>)> = Vec::new();
+    for line in block.split(|b| *b == b'\n') {
+        let line = line.strip_suffix(b"\r").unwrap_or(line);
+        if line.is_empty() {
+            continue;
+        }
+        if let Some(i) = line.iter().position(|b| *b == b':') {
+            let name = String::from_utf8_lossy(&line[..i]).to_ascii_lowercase();
+            let mut val = &line[i + 1..];
+            while let [b' ' | b'\t', rest @ ..] = val {
+                val = rest;
+            }
+            while let [rest @ .., b' ' | b'\t'] = val {
+                val = rest;
+            }
+            v.push((name, val.to_vec()));
+        }
+    }
+    v.sort_by(|a, b| a.0.cmp(&b.0));
+    v
+}
+
+fn run(line: &str) -> CaseResult {
+    let Some(case) = parse_case(line) else {
+        return CaseResult { output: "bad-case".into(), fail: None, nontrivial: false, tags: vec!["bad-case".into()] };
+    };
+    let tr = drive(&case.setup, &case.script);
+    let output = show_trace(&tr);
+    let (fields, status) = summarize(&tr);
+    let mut res = CaseResult { output, fail: None, nontrivial: !fields.is_empty(), tags: vec![] };
+    res.tags.push(format!("status:{}", status));
+    res.tags.push(format!("fields:{}", fields.len().min(4)));
+    if case.setup.lim != 0 {
+        res.tags.push("small-limit".into());
+    }
+    if case.script.iter().any(|t| matches!(t, Tok::Chunk(c) if c.is_empty())) {
+        res.tags.push("empty-chunk".into());
+    }
+    if case.setup.plan.iter().any(|p| matches!(p, Plan::DropAfter(_))) {
+        res.tags.push("drop-plan".into());
+    }
+
+    // (1) termination: every body ends in a decision
+    if status == "HANG" {
+        res = res.fail("hang", format!("task is Pending with no wake-up scheduled; trace: {}", show_fields(&fields)));
+    }
+    if status == "SPIN" {
+        res = res.fail("spin", "task keeps waking itself without finishing".into());
+    }
+    let has_err_tok = case.script.iter().any(|t| *t == Tok::Err);
+
+    // (2) same bytes, other segmentation => same fields and same final status
+    if !has_err_tok {
+        let body = body_of(&case.script);
+        let whole = vec![Tok::Chunk(body.clone())];
+        let bytewise: Vec<Tok> = body.iter().map(|b| Tok::Chunk(vec![*b])).collect();
+        for (what, alt) in [("whole", whole), ("bytewise", bytewise)] {
+            if alt == case.script {
+                continue;
+            }
+            let (f2, s2) = summarize(&drive(&case.setup, &alt));
+            if !fields_equiv(&f2, &fields) || s2 != status {
+                res = res.fail(
+                    "segmentation",
+                    format!("script gives {} {} but the same bytes {} give {} {}", show_fields(&fields), status, what, show_fields(&f2), s2),
+                );
+                break;
+            }
+        }
+    }
+
+    // (3) generator ground truth
+    if let Some(gt) = &case.gt {
+        let all_read = case.setup.plan.iter().all(|p| *p == Plan::Read);
+        let damaged = case.trunc || has_err_tok || case.no_status_verdict;
+        res.tags.push(if damaged { "damaged".into() } else { "wellformed".into() });
+        // prefix relation on what was delivered: never a wrong/merged field
+        for (i, f) in fields.iter().enumerate() {
+            let Some((gh, gc, gn)) = gt.get(i) else {
+                if case.no_status_verdict {
+                    break;
+                }
+                res = res.fail("extra-field", format!("field #{} delivered but the body has only {} fields", i, gt.len()));
+                break;
+            };
+            if f.hdrs != gt_headers(gh) {
+                res = res.fail("headers", format!("field #{}: headers {:?} expected {:?}", i, f.hdrs, gt_headers(gh)));
+                break;
+            }
+            if f.name.as_ref().map(|n| n.as_bytes().to_vec()) != *gn {
+                res = res.fail("name", format!("field #{}: name {:?} expected {:?}", i, f.name, gn.as_ref().map(|n| String::from_utf8_lossy(n).into_owned())));
+                break;
+            }
+            let complete = f.end == 'N';
+            let ok = if complete { &f.content == gc } else { gc.starts_with(&f.content) };
+            if !ok {
+                res = res.fail(
+                    "content",
+                    format!("field #{}: content {} expected {}{}", i, hex(&f.content), if complete { "" } else { "a prefix of " }, hex(gc)),
+                );
+                break;
+            }
+        }
+        // buffer bound: at every event of a well-formed, fully read body the parser's position in the
+        // body is known exactly, so (bytes pulled from the stream) - (bytes consumed) = buffered + kept-back
+        // rest of the last chunk; that must not exceed limit + that chunk
+        if !damaged && all_read && !gt.is_empty() {
+            let body = body_of(&case.script);
+            let mut layout: Vec<u8> = Vec::new();
+            let mut starts = Vec::new();
+            for (h, c, _) in gt.iter() {
+                layout.extend_from_slice(b"--");
+                layout.extend_from_slice(&case.setup.boundary);
+                layout.extend_from_slice(b"\r\n");
+                layout.extend_from_slice(h);
+                layout.extend_from_slice(b"\r\n");
+                starts.push(layout.len());
+                layout.extend_from_slice(c);
+                layout.extend_from_slice(b"\r\n");
+            }
+            if let Some(pre) = body.windows(layout.len()).position(|w| w == layout.as_slice()) {
+                let limit = if case.setup.lim == 0 { 65536 } else { case.setup.lim };
+                let mut fi = 0usize;
+                let mut consumed = 0usize;
+                for (e, k) in &tr {
+                    match e {
+                        Ev::Field { .. } => {
+                            consumed = pre + starts[fi.min(starts.len() - 1)];
+                            fi += 1;
+                        }
+                        Ev::Data(d) => consumed += d.len(),
+                        Ev::FieldEnd => consumed += 2,
+                        _ => continue,
+                    }
+                    let mut pulled = 0usize;
+                    let mut last = 0usize;
+                    for t in case.script.iter().take(*k) {
+                        if let Tok::Chunk(c) = t {
+                            pulled += c.len();
+                            last = c.len();
+                        }
+                    }
+                    if pulled > consumed + limit + last {
+                        res = res.fail(
+                            "buffer-bound",
+                            format!("{} bytes pulled from the stream, {} consumed: more than limit {} + last chunk {} are held", pulled, consumed, limit, last),
+                        );
+                        break;
+                    }
+                }
+            }
+        }
+        // overflow is legitimate only if some look-ahead unit does not fit the limit
+        let lim = if case.setup.lim == 0 { 65536 } else { case.setup.lim };
+        let blen = case.setup.boundary.len();
+        let mut need = gt.iter().map(|(h, _, _)| h.len() + 4).max().unwrap_or(0).max(blen + 8);
+        {
+            // preamble lines are read line by line
+            let body = body_of(&case.script);
+            let open_line = [b"--".as_slice(), &case.setup.boundary, b"\r\n"].concat();
+            let close_line = [b"--".as_slice(), &case.setup.boundary, b"--\r\n"].concat();
+            for l in body.split_inclusive(|b| *b == b'\n') {
+                if l == open_line.as_slice() || l == close_line.as_slice() {
+                    break;
+                }
+                need = need.max(l.len());
+            }
+        }
+        if !damaged {
+            if status == "EOF" {
+                if fields.len() != gt.len() {
+                    res = res.fail("missing-field", format!("{} fields delivered, body has {}", fields.len(), gt.len()));
+                }
+                if all_read && fields.iter().any(|f| f.end != 'N') {
+                    res = res.fail("field-not-ended", show_fields(&fields));
+                }
+            } else if status == "ERR:Overflow" && lim < need {
+                res.tags.push("legit-overflow".into());
+            } else if status != "HANG" && status != "SPIN" {
+                res = res.fail("wellformed-rejected", format!("well-formed body ended with {} after {}", status, show_fields(&fields)));
+            }
+        } else if status == "EOF" && case.trunc {
+            res = res.fail("damaged-accepted", format!("truncated/damaged body ended with EOF after {}", show_fields(&fields)));
+        }
+    }
+    res
+}
+
+// ------------------------------------------------------------------------------------------
+// generator
+
+#[derive(Clone, Debug)]
+struct FieldSpec {
+    /// header block without the terminating blank line (`Name: value\r\n`…), may be empty
+    hdrs: Vec<u8>,
+    content: Vec<u8>,
+    name: Option<Vec<u8>>,
+}
+
+fn delim(b: &[u8]) -> Vec<u8> {
+    [b"\r\n--".as_slice(), b].concat()
+}
+
+fn build_body(b: &[u8], fields: &[FieldSpec], preamble: &[u8], epilogue: &[u8]) -> Vec<u8> {
+    build_body_junk(b, fields, preamble, epilogue, None)
+}
+
+/// `junk = Some(i)`: the delimiter line in front of field `i` is followed by junk
+fn build_body_junk(b: &[u8], fields: &[FieldSpec], preamble: &[u8], epilogue: &[u8], junk: Option<usize>) -> Vec<u8> {
+    let mut out = preamble.to_vec();
+    for (i, f) in fields.iter().enumerate() {
+        out.extend_from_slice(b"--");
+        out.extend_from_slice(b);
+        if junk == Some(i) {
+            out.extend_from_slice(b"junk");
+        }
+        out.extend_from_slice(b"\r\n");
+        out.extend_from_slice(&f.hdrs);
+        out.extend_from_slice(b"\r\n");
+        out.extend_from_slice(&f.content);
+        out.extend_from_slice(b"\r\n");
+    }
+    out.extend_from_slice(b"--");
+    out.extend_from_slice(b);
+    out.extend_from_slice(b"--\r\n");
+    out.extend_from_slice(epilogue);
+    out
+}
+
+fn show_script(script: &[Tok]) -> String {
+    script
+        .iter()
+        .map(|t| match t {
+            Tok::Chunk(c) => format!("c{}", hex(c)),
+            Tok::Pending => "p".into(),
+            Tok::Err => "e".into(),
+        })
+        .collect::<Vec<_>>()
+        .join(" ")
+}
+
+fn show_plan(plan: &[Plan]) -> String {
+    if plan.is_empty() {
+        return "r".into();
+    }
+    plan.iter()
+        .map(|p| match p {
+            Plan::Read => "r".to_owned(),
+            Plan::DropAfter(k) => format!("d{}", k),
+        })
+        .collect::<Vec<_>>()
+        .join(",")
+}
+
+fn mk_case(b: &[u8], form: bool, lim: usize, plan: &[Plan], gt: Option<&[FieldSpec]>, tr: bool, script: &[Tok]) -> String {
+    let mut s = format!("b={} ct={} lim={} plan={}", hex(b), if form { "form" } else { "mixed" }, lim, show_plan(plan));
+    if let Some(fs) = gt {
+        let g = if fs.is_empty() {
+            "-".to_owned()
+        } else {
+            fs.iter()
+                .map(|f| format!("{}:{}:{}", hex(&f.hdrs), hex(&f.content), f.name.as_ref().map(|n| hex(n)).unwrap_or_else(|| "~".into())))
+                .collect::<Vec<_>>()
+                .join(";")
+        };
+        s.push_str(&format!(" gt={}", g));
+    }
+    if tr {
+        s.push_str(" tr=1");
+    }
+    s.push_str(" | ");
+    s.push_str(&show_script(script));
+    s
+}
+
+/// cut `body` at the given (sorted, deduplicated) positions, `pend(i)` Pendings before chunk i (i ≥ 1)
+fn cut_script(body: &[u8], cuts: &[usize], mut pend: impl FnMut(usize) -> usize) -> Vec<Tok> {
+    let mut script = Vec::new();
+    let mut prev = 0usize;
+    let mut idx = 0usize;
+    let mut pts: Vec<usize> = cuts.iter().copied().filter(|c| *c > 0 && *c < body.len()).collect();
+    pts.sort();
+    pts.dedup();
+    pts.push(body.len());
+    for c in pts {
+        if idx > 0 {
+            for _ in 0..pend(idx) {
+                script.push(Tok::Pending);
+            }
+        }
+        script.push(Tok::Chunk(body[prev..c].to_vec()));
+        prev = c;
+        idx += 1;
+    }
+    script
+}
+
+const BOUNDARIES: &[&str] = &[
+    "XB", "b", "-", "--", "a-b", "abbc761f78ff4d7cb7573b5a23f96ef0", "B'()+_,./:=?", "----WebKitFormBoundary7MA4YWxkTrZu0gW",
+    "0123456789012345678901234567890123456789012345678901234567890123456789",
+];
+
+fn rand_content(rng: &mut Rng, b: &[u8], allow_delim: bool) -> Vec<u8> {
+    let n = match rng.below(10) {
+        0 => 0,
+        1..=6 => rng.range(1, 6),
+        _ => rng.range(4, 14),
+    };
+    let mut c = Vec::new();
+    for _ in 0..n {
+        match rng.below(22) {
+            0 => c.extend_from_slice(b"\r"),
+            1 => c.extend_from_slice(b"\n"),
+            2 => c.extend_from_slice(b"\r\n"),
+            3 => c.extend_from_slice(b"-"),
+            4 => c.extend_from_slice(b"--"),
+            5 => c.extend_from_slice(b"\r\n--"),
+            6 => {
+                // delimiter look-alike: proper prefix of the boundary
+                c.extend_from_slice(b"\r\n--");
+                let k = rng.below(b.len());
+                c.extend_from_slice(&b[..k]);
+            }
+            7 => {
+                c.extend_from_slice(b"\r--");
+                c.extend_from_slice(b);
+            }
+            8 => {
+                c.extend_from_slice(b"--");
+                c.extend_from_slice(b);
+            }
+            9 => {
+                c.extend_from_slice(b"\n--");
+                c.extend_from_slice(b);
+                c.extend_from_slice(b"--");
+            }
+            10 => c.extend_from_slice(b"\r\r\n-"),
+            11 => c.extend_from_slice(b"\r\n\r\n"),
+            12 => c.extend_from_slice(b"\r\n-"),
+            13 => {
+                if allow_delim {
+                    c.extend_from_slice(&delim(b));
+                    c.extend_from_slice(b"\r\n");
+                } else {
+                    c.extend_from_slice(b);
+                }
+            }
+            14 => {
+                let k = rng.range(1, 40);
+                c.extend_from_slice(&rng.bytes(k));
+            }
+            15 => c.extend_from_slice(b"\0\xff"),
+            _ => {
+                let k = rng.range(1, 8);
+                for _ in 0..k {
+                    c.push(b'a' + rng.below(26) as u8);
+                }
+            }
+        }
+    }
+    if !allow_delim {
+        // the content (also together with the delimiter that follows it) must not contain the delimiter
+        let d = delim(b);
+        loop {
+            let mut probe = c.clone();
+            probe.extend_from_slice(&d);
+            match probe.windows(d.len()).position(|w| w == d.as_slice()) {
+                Some(p) if p < c.len() => {
+                    c.remove(p + 1); // break this occurrence (drop its LF)
+                }
+                _ => break,
+            }
+        }
+    }
+    c
+}
+
+fn rand_field(rng: &mut Rng, b: &[u8], form: bool, idx: usize) -> FieldSpec {
+    let mut hdrs = Vec::new();
+    let mut name = None;
+    let with_cl = rng.chance(1, 5);
+    let content = rand_content(rng, b, with_cl);
+    if form || rng.chance(1, 3) {
+        let n = format!("f{}", idx);
+        match rng.below(4) {
+            0 => hdrs.extend_from_slice(format!("Content-Disposition: form-data; name={}\r\n", n).as_bytes()),
+            1 => hdrs.extend_from_slice(format!("content-disposition:form-data;filename=\"a;b.txt\"; name=\"{}\"  \r\n", n).as_bytes()),
+            _ => hdrs.extend_from_slice(format!("Content-Disposition: form-data; name=\"{}\"\r\n", n).as_bytes()),
+        }
+        name = Some(n.into_bytes());
+    }
+    match rng.below(6) {
+        0 => hdrs.extend_from_slice(b"Content-Type: text/plain\r\n"),
+        1 => hdrs.extend_from_slice(b"Content-Type: application/octet-stream\r\nX-Extra:   padded value \t \r\n"),
+        2 => hdrs.extend_from_slice(b"x-a: 1\r\nX-A: 2\r\nx-empty:\r\n"),
+        _ => {}
+    }
+    if with_cl {
+        hdrs.extend_from_slice(format!("Content-Length: {}\r\n", content.len()).as_bytes());
+    }
+    FieldSpec { hdrs, content, name }
+}
+
+fn rand_pendings(rng: &mut Rng) -> usize {
+    match rng.below(8) {
+        0..=2 => 0,
+        3..=4 => 1,
+        5 => 2,
+        _ => 3,
+    }
+}
+
+/// random segmentation: cuts, Pendings, sometimes empty chunks (also long runs of them)
+fn rand_script(rng: &mut Rng, body: &[u8]) -> Vec<Tok> {
+    let style = rng.below(10);
+    let ncuts = match style {
+        0 => 0,
+        1..=5 => rng.range(1, 4),
+        6..=7 => rng.range(4, 12),
+        8 => body.len() / 3,
+        _ => body.len(),
+    };
+    let mut cuts = Vec::new();
+    // prefer cuts near CR / '-' (the look-ahead window)
+    let hot: Vec<usize> = (0..body.len()).filter(|i| body[*i] == b'\r' || body[*i] == b'-' || body[*i] == b'\n').collect();
+    for _ in 0..ncuts {
+        if !hot.is_empty() && rng.chance(2, 3) {
+            let h = *rng.pick(&hot);
+            cuts.push((h + rng.below(6)).saturating_sub(1));
+        } else {
+            cuts.push(rng.below(body.len() + 1));
+        }
+    }
+    let fixed_p = if rng.chance(1, 3) { Some(rng.below(4)) } else { None };
+    let mut script = cut_script(body, &cuts, |_| fixed_p.unwrap_or_else(|| rand_pendings(rng)));
+    // empty chunks
+    if rng.chance(1, 6) {
+        let k = rng.below(script.len() + 1);
+        let n = *rng.pick(&[1usize, 2, 15, 16, 17, 33]);
+        let mut ins = Vec::new();
+        if rng.chance(1, 2) {
+            ins.push(Tok::Pending);
+            ins.push(Tok::Pending);
+        }
+        for _ in 0..n {
+            ins.push(Tok::Chunk(vec![]));
+        }
+        script.splice(k..k, ins);
+    }
+    script
+}
+
+/// look-ahead needed by the parser for this body: longest header block, boundary line
+fn need_of(b: &[u8], fields: &[FieldSpec]) -> usize {
+    fields.iter().map(|f| f.hdrs.len() + 4).max().unwrap_or(0).max(b.len() + 8)
+}
+
+fn hand_bodies() -> Vec<(Vec<u8>, bool, Vec<FieldSpec>, Vec<u8>, Vec<u8>)> {
+    let f = |h: &str, c: &[u8], n: Option<&str>| FieldSpec { hdrs: h.as_bytes().to_vec(), content: c.to_vec(), name: n.map(|x| x.as_bytes().to_vec()) };
+    let ct = "Content-Type: text/plain\r\n";
+    vec![
+        (b"XB".to_vec(), false, vec![f(ct, b"data", None)], vec![], vec![]),
+        (b"XB".to_vec(), false, vec![f(ct, b"", None), f("", b"x", None)], vec![], vec![]),
+        (b"XB".to_vec(), false, vec![f(ct, b"a\r", None), f(ct, b"b\r\n", None), f(ct, b"c--", None)], vec![], vec![]),
+        (b"XB".to_vec(), false, vec![f(ct, b"a\r\n--", None), f(ct, b"\r\n--X", None), f(ct, b"\r\n--XC\r\n--", None)], vec![], vec![]),
+        (b"XB".to_vec(), false, vec![f("", b"foo\r--XB bar", None), f("", b"--XB--", None)], b"pre\r\nam--XB\r\n".to_vec(), b"epilogue".to_vec()),
+        (b"-".to_vec(), false, vec![f(ct, b"\r\n--", None), f(ct, b"--\r\n-", None)], vec![], vec![]),
+        (b"XB".to_vec(), true, vec![f("Content-Disposition: form-data; name=\"a\"\r\n", b"1\r\n2", Some("a")), f("content-disposition: form-data; name=b\r\nContent-Length: 10\r\n", b"x\r\n--XB\r\ny", Some("b"))], vec![], vec![]),
+        (b"XB".to_vec(), false, vec![f("Content-Length: 0\r\n", b"", None), f("Content-Length: 3\r\n", b"\r\n\r", None)], vec![], vec![]),
+        (b"XB".to_vec(), false, vec![], vec![], vec![]),
+    ]
+}
+
+fn gen(ctx: &Ctx) -> Vec<String> {
+    let mut rng = Rng::new(ctx.seed);
+    let mut cases: Vec<String> = Vec::new();
+    let thorough = ctx.tier != Tier::Quick;
+
+    // (B) hand-picked short bodies: every single cut x {0,1,3} Pendings; every truncation point
+    for (b, form, fields, pre, epi) in hand_bodies() {
+        let body = build_body(&b, &fields, &pre, &epi);
+        cases.push(mk_case(&b, form, 0, &[], Some(&fields), false, &[Tok::Chunk(body.clone())]));
+        for cut in 1..body.len() {
+            for k in [0usize, 1, 3] {
+                cases.push(mk_case(&b, form, 0, &[], Some(&fields), false, &cut_script(&body, &[cut], |_| k)));
+            }
+            // two cuts enclosing 1..4 bytes (a chunk entirely inside the look-ahead window)
+            if thorough || cut % 2 == 0 {
+                let w = 1 + cut % 4;
+                cases.push(mk_case(&b, form, 0, &[], Some(&fields), false, &cut_script(&body, &[cut, cut + w], |_| 3)));
+            }
+        }
+        let end_of_structure = body.len() - epi.len();
+        for t in 0..end_of_structure.saturating_sub(2) {
+            // truncated before the end of the final delimiter line: an error is required
+            let tb = &body[..t];
+            cases.push(mk_case(&b, form, 0, &[], Some(&fields), true, &[Tok::Chunk(tb.to_vec())]));
+            if t > 3 {
+                cases.push(mk_case(&b, form, 0, &[], Some(&fields), true, &cut_script(tb, &[t - 1 - t % 3], |_| 1 + t % 3)));
+            }
+        }
+        // byte-wise with a Pending before every byte
+        cases.push(mk_case(&b, form, 0, &[], Some(&fields), false, &cut_script(&body, &(1..body.len()).collect::<Vec<_>>(), |_| 1)));
+    }
+
+    // (A) structured random bodies
+    for _ in 0..ctx.budget(9000) {
+        let b = rng.pick(BOUNDARIES).as_bytes().to_vec();
+        let form = rng.chance(1, 4);
+        let nf = match rng.below(10) {
+            0 => 0,
+            1..=5 => 1,
+            6..=7 => 2,
+            8 => 3,
+            _ => rng.range(3, 5),
+        };
+        let fields: Vec<FieldSpec> = (0..nf)
+            .map(|i| {
+                let mut f = rand_field(&mut rng, &b, form, i);
+                if !form && f.hdrs.is_empty() && rng.chance(1, 2) {
+                    f.hdrs = b"Content-Type: text/plain\r\n".to_vec();
+                }
+                f
+            })
+            .collect();
+        let pre: Vec<u8> = match rng.below(6) {
+            0 => b"This is the preamble.\r\n".to_vec(),
+            1 => [b"--".as_slice(), &b, b"x\r\nline\n--", &b, b"\n"].concat(),
+            2 => b"\r\n".to_vec(),
+            _ => vec![],
+        };
+        let epi: Vec<u8> = if rng.chance(1, 4) { b"epilogue\r\n--".to_vec() } else { vec![] };
+        let body = build_body(&b, &fields, &pre, &epi);
+        let script = rand_script(&mut rng, &body);
+        let plan: Vec<Plan> = if rng.chance(1, 5) {
+            (0..rng.range(1, 3)).map(|_| if rng.chance(1, 2) { Plan::DropAfter(rng.below(3)) } else { Plan::Read }).collect()
+        } else {
+            vec![]
+        };
+        let need = need_of(&b, &fields).max(pre.len());
+        let lim = if rng.chance(1, 5) {
+            *rng.pick(&[1usize, 2, 5, need.saturating_sub(1).max(1), need, need + 1, need + 7, 2 * need])
+        } else {
+            0
+        };
+        cases.push(mk_case(&b, form, lim, &plan, Some(&fields), false, &script));
+
+        // derived damaged variants of the same body
+        match rng.below(12) {
+            0 => {
+                // truncation at a random point inside the structure
+                let t = rng.below(body.len() - epi.len() - 2);
+                let script = rand_script(&mut rng, &body[..t]);
+                cases.push(mk_case(&b, form, lim, &plan, Some(&fields), true, &script));
+            }
+            1 => {
+                // stream error somewhere
+                let mut script = script.clone();
+                let k = rng.below(script.len() + 1);
+                script.insert(k, Tok::Err);
+                cases.push(mk_case(&b, form, 0, &plan, Some(&fields), false, &script));
+            }
+            2 if nf > 1 => {
+                // a delimiter followed by junk: `--B` + junk in front of field j ≥ 1; fields before j are intact
+                let j = rng.range(1, nf - 1);
+                let bad = build_body_junk(&b, &fields, &pre, &epi, Some(j));
+                let script = rand_script(&mut rng, &bad);
+                cases.push(mk_case(&b, form, 0, &[], Some(&fields[..j]), true, &script).replace(" | ", " nv=1 | "));
+            }
+            3 => {
+                // per-part Content-Length that lies (no ground-truth verdict: by design the length wins)
+                let mut fs = fields.clone();
+                if let Some(f) = fs.first_mut() {
+                    let lie = match rng.below(3) {
+                        0 => f.content.len().saturating_sub(1 + rng.below(3)),
+                        1 => f.content.len() + 1 + rng.below(40),
+                        _ => 1 << 40,
+                    };
+                    f.hdrs = format!("Content-Length: {}\r\n", lie).into_bytes();
+                    if form {
+                        f.hdrs.extend_from_slice(b"Content-Disposition: form-data; name=\"l\"\r\n");
+                    }
+                    let body = build_body(&b, &fs, &pre, &epi);
+                    let script = rand_script(&mut rng, &body);
+                    cases.push(mk_case(&b, form, 0, &plan, None, false, &script));
+                }
+            }
+            4 => {
+                // broken header blocks / header-level rejections
+                let bad: &[u8] = *rng.pick(&[
+                    b"no colon here\r\n".as_slice(),
+                    b": empty name\r\n",
+                    b"Bad Name: x\r\n",
+                    b"X: a\rb\r\n",
+                    b"X: a\x01b\r\n",
+                    b" folded: x\r\n",
+                    b"Content-Type: multipart/mixed; boundary=zz\r\n",
+                    b"Content-Length: abc\r\n",
+                    b"Content-Length: 18446744073709551616\r\n",
+                    b"Content-Disposition: attachment; name=\"x\"\r\n",
+                    b"Content-Disposition: form-data\r\n",
+                    b"Content-Disposition: form-data; name\r\n",
+                ]);
+                let mut fs = fields.clone();
+                let at = rng.below(fs.len() + 1);
+                fs.insert(at.min(fs.len()), FieldSpec { hdrs: bad.to_vec(), content: b"zz".to_vec(), name: None });
+                let body = build_body(&b, &fs, &pre, &epi);
+                let script = rand_script(&mut rng, &body);
+                // verdict only on the fields in front of the bad part
+                cases.push(mk_case(&b, form, 0, &[], Some(&fs[..at.min(fs.len() - 1)]), false, &script).replace(" | ", " nv=1 | "));
+            }
+            5 => {
+                // too many header fields
+                let n = *rng.pick(&[31usize, 32, 33, 40]);
+                let mut h = Vec::new();
+                for i in 0..n {
+                    h.extend_from_slice(format!("x-h{}: {}\r\n", i, i).as_bytes());
+                }
+                let fs = vec![FieldSpec { hdrs: h, content: b"many".to_vec(), name: None }];
+                let body = build_body(&b, &fs, &[], &[]);
+                let script = rand_script(&mut rng, &body);
+                cases.push(mk_case(&b, false, 0, &[], if n <= 32 { Some(&fs) } else { None }, false, &script));
+            }
+            _ => {}
+        }
+    }
+
+    // (H) larger contents: default limit with big chunks, small limits, many small chunks (budget)
+    for i in 0..ctx.budget(24) {
+        let b = b"XB".to_vec();
+        let n = *rng.pick(&[300usize, 1000, 5000, 70_000]);
+        let mut content: Vec<u8> = (0..n).map(|j| if (j + i) % 97 == 0 { b'\r' } else if j % 89 == 1 { b'-' } else { b'a' + (j % 26) as u8 }).collect();
+        if rng.chance(1, 2) {
+            let k = rng.below(content.len());
+            content.splice(k..k, b"\r\n--X".iter().copied());
+        }
+        let fields = vec![FieldSpec { hdrs: b"Content-Type: text/plain\r\n".to_vec(), content, name: None }, FieldSpec { hdrs: vec![], content: b"tail".to_vec(), name: None }];
+        let body = build_body(&b, &fields, &[], &[]);
+        let csz = *rng.pick(&[7usize, 10, 64, 1000, 8192, 66_000]);
+        let cuts: Vec<usize> = (1..body.len() / csz + 1).map(|k| k * csz).collect();
+        let every = rng.range(1, 40);
+        let script = cut_script(&body, &cuts, |i| if i % every == 0 { 1 } else { 0 });
+        let lim = if n <= 5000 { *rng.pick(&[0usize, 64, 100, 257]) } else { 0 };
+        let plan = if rng.chance(1, 3) { vec![Plan::DropAfter(1)] } else { vec![] };
+        cases.push(mk_case(&b, false, lim, &plan, Some(&fields), false, &script));
+    }
+    cases
+}
 
 pub fn prop() -> Prop {
-    Prop {
-        rule: "unimplemented",
-        parallel: false,
-        gen: Box::new(|_| Vec::new()),
-        run: Box::new(|_| CaseResult::ok("unimplemented".to_owned())),
-    }
+    Prop { rule: RULE, parallel: true, gen: Box::new(gen), run: Box::new(run) }
 }
